@@ -313,7 +313,16 @@ where
         let storage = self.storage;
         storage.log.load_object(r);
 
-        storage.resolve_ref(r, flags, self)
+        // an object may consist of nothing but a reference to another object: follow such a chain here, so that
+        // no caller ever gets a reference back (readers resolve and retry, which would never end on a cycle)
+        let mut r = r;
+        for _ in 0 .. 32 {
+            match storage.resolve_ref(r, flags | ParseFlags::REF, self)? {
+                Primitive::Reference(next) => r = next,
+                p => return Ok(p)
+            }
+        }
+        bail!("object {} is the start of a chain of more than 32 references (or of a reference cycle)", r.id)
     }
 
     fn get<T: Object+DataSize>(&self, r: Ref<T>) -> Result<RcRef<T>> {
